@@ -17,10 +17,10 @@ def MapsIn (a b : Nat) (seg : List Tok) : Prop :=
 
 /-- the map contract of a rule: a match appends a segment whose maps lie in `[line, state.line)`; a
     miss appends nothing -/
-structure MapOK (r : BRule) : Prop where
-  hit : ∀ s line endLine s', r s line endLine false = .ok (true, s') →
+structure MapOK (P : BState → Nat → Prop) (r : BRule) : Prop where
+  hit : ∀ s line endLine s', CallCtx P s line endLine → r s line endLine false = .ok (true, s') →
     ∃ seg, s'.tokens = s.tokens ++ seg ∧ MapsIn line s'.line seg
-  miss : ∀ s line endLine s', r s line endLine false = .ok (false, s') → s'.tokens = s.tokens
+  miss : ∀ s line endLine s', CallCtx P s line endLine → r s line endLine false = .ok (false, s') → s'.tokens = s.tokens
 
 /-- tokens added in stages with increasing, disjoint line ranges inside `[lo, hi]` -/
 inductive Staged : Nat → Nat → List Tok → Prop where
@@ -43,8 +43,9 @@ theorem Staged.mapsIn {lo hi : Nat} {ts : List Tok} (h : Staged lo hi ts) : Maps
     · have := h4 t ht x y hm; omega
     · have := ih t ht x y hm; omega
 
-theorem chain_tokens (rules : List BRule) (hok : ∀ r ∈ rules, RuleOK r) (hmap : ∀ r ∈ rules, MapOK r)
-    (s : BState) (line endLine : Nat) (m : Bool) (s' : BState)
+theorem chain_tokens (P : BState → Nat → Prop) (hP : FrameClosed P) (rules : List BRule) (hok : ∀ r ∈ rules, RuleOK P r)
+    (hmap : ∀ r ∈ rules, MapOK P r)
+    (s : BState) (line endLine : Nat) (m : Bool) (s' : BState) (hc : CallCtx P s line endLine)
     (h : runBlockChain rules s line endLine = .ok (m, s')) :
     ∃ seg, s'.tokens = s.tokens ++ seg ∧ (m = true → MapsIn line s'.line seg) ∧ (m = false → seg = []) := by
   induction rules generalizing s with
@@ -52,37 +53,38 @@ theorem chain_tokens (rules : List BRule) (hok : ∀ r ∈ rules, RuleOK r) (hma
   | cons r rest ih =>
     have hr := hok r (by simp)
     have hm := hmap r (by simp)
-    obtain ⟨m1, s1, hrs⟩ := hr.total s line endLine
+    obtain ⟨m1, s1, hrs⟩ := hr.total s line endLine hc
     simp only [runBlockChain, hrs] at h
     cases m1 with
     | true =>
       simp only [Except.ok.injEq, Prod.mk.injEq] at h
       obtain ⟨rfl, rfl⟩ := h
-      obtain ⟨seg, h1, h2⟩ := hm.hit _ _ _ _ hrs
+      obtain ⟨seg, h1, h2⟩ := hm.hit _ _ _ _ hc hrs
       exact ⟨seg, h1, fun _ => h2, by simp⟩
     | false =>
       simp only at h
-      obtain ⟨seg, h1, h2, h3⟩ := ih (fun q hq => hok q (by simp [hq])) (fun q hq => hmap q (by simp [hq])) s1 h
-      exact ⟨seg, by rw [h1, hm.miss _ _ _ _ hrs], h2, h3⟩
+      obtain ⟨seg, h1, h2, h3⟩ := ih (fun q hq => hok q (by simp [hq])) (fun q hq => hmap q (by simp [hq])) s1
+        (hc.transfer hP (hr.frame _ _ _ _ _ hc hrs)) h
+      exact ⟨seg, by rw [h1, hm.miss _ _ _ _ hc hrs], h2, h3⟩
 
 /-- **C03.loop_maps_staged** — whatever the rule chain (contracts assumed), whenever a block loop
 over `[line, endLine)` returns, the tokens it added are staged inside `[line, endLine]`: their maps
 are in range, non-empty, and sibling blocks never overlap or go backwards. -/
-theorem loop_maps_staged (rules : List BRule) (hok : ∀ r ∈ rules, RuleOK r) (hmap : ∀ r ∈ rules, MapOK r)
-    (maxNesting : Int) (endLine : Nat) :
+theorem loop_maps_staged (P : BState → Nat → Prop) (hP : FrameClosed P) (rules : List BRule) (hok : ∀ r ∈ rules, RuleOK P r)
+    (hmap : ∀ r ∈ rules, MapOK P r) (maxNesting : Int) (endLine : Nat) :
     ∀ (fuel line : Nat) (hasEmpty : Bool) (s s' : BState), s.lines.length = s.lineMax + 1 → endLine ≤ s.lineMax →
-      blockLoop rules maxNesting endLine fuel line hasEmpty s = .ok s' →
+      P s endLine → blockLoop rules maxNesting endLine fuel line hasEmpty s = .ok s' →
       ∃ new, s'.tokens = s.tokens ++ new ∧ Staged line endLine new := by
   intro fuel
   induction fuel with
   | zero =>
-    intro line _ s s' _ _ h
+    intro line _ s s' _ _ _ h
     simp only [blockLoop] at h
     split at h
     · cases h
     · simp only [Except.ok.injEq] at h; subst h; exact ⟨[], by simp, .nil _ _⟩
   | succ n ih =>
-    intro line hasEmpty s s' hlen hend h
+    intro line hasEmpty s s' hlen hend hPs h
     simp only [blockLoop] at h
     split at h
     · rename_i hlt
@@ -99,11 +101,20 @@ theorem loop_maps_staged (rules : List BRule) (hok : ∀ r ∈ rules, RuleOK r) 
             · split at h
               · cases h
               · rename_i mm s2 hc
-                obtain ⟨m', s2', hc', hfr2, hprog, hmiss⟩ := C01.chain_ok rules hok { s with line := line1 } line1 endLine
+                have hctx : CallCtx P { s with line := line1 } line1 endLine := by
+                  rename_i hnge optl l hl hnout hlev hx
+                  have hlt1 : line1 < s.lineMax := by omega
+                  obtain ⟨l', hl', hne'⟩ := hsk.2 hlt1
+                  have hll : l' = l := by
+                    have : s.lines[line1]? = some l := hl
+                    rw [this] at hl'; exact (Option.some.inj hl').symm
+                  subst hll
+                  exact ⟨hlen, by omega, hend, ⟨l', hl, hne', by simpa using hnout⟩, hP s _ _ ⟨rfl, rfl, rfl, rfl⟩ hPs⟩
+                obtain ⟨m', s2', hc', hfr2, hprog, hmiss⟩ := C01.chain_ok P hP rules hok { s with line := line1 } line1 endLine hctx
                 rw [hc] at hc'
                 simp only [Except.ok.injEq, Prod.mk.injEq] at hc'
                 obtain ⟨rfl, rfl⟩ := hc'
-                obtain ⟨seg, hseg, hmaps, _⟩ := chain_tokens rules hok hmap _ _ _ _ _ hc
+                obtain ⟨seg, hseg, hmaps, _⟩ := chain_tokens P hP rules hok hmap _ _ _ _ _ hctx hc
                 split at h
                 · cases h
                 · rename_i hnle
@@ -119,11 +130,12 @@ theorem loop_maps_staged (rules : List BRule) (hok : ∀ r ∈ rules, RuleOK r) 
                   have hstage := hmaps hm
                   -- all continuations recurse on a state with the same tokens as s2
                   have fin : ∀ (l' : Nat) (he : Bool) (st : BState), st.tokens = s2.tokens → st.lines.length = st.lineMax + 1 →
-                      endLine ≤ st.lineMax → s2.line ≤ l' →
+                      endLine ≤ st.lineMax → s2.FrameEq st → s2.line ≤ l' →
                       blockLoop rules maxNesting endLine n l' he st = .ok s' →
                       ∃ new, s'.tokens = s.tokens ++ new ∧ Staged line endLine new := by
-                    intro l' he st htok hl hE hle hrec
-                    obtain ⟨new', hn1, hn2⟩ := ih l' he st s' hl hE hrec
+                    intro l' he st htok hl hE hfe hle hrec
+                    have hPst : P st endLine := hP _ _ _ hfe (hP _ _ _ hfr2 (hP s _ _ ⟨rfl, rfl, rfl, rfl⟩ hPs))
+                    obtain ⟨new', hn1, hn2⟩ := ih l' he st s' hl hE hPst hrec
                     refine ⟨seg ++ new', ?_, ?_⟩
                     · rw [hn1, htok, hseg]; simp
                     · exact .stage line1 s2.line seg new' hsk.1 hgt hp.2 hstage (hn2.weaken hle)
@@ -133,9 +145,9 @@ theorem loop_maps_staged (rules : List BRule) (hok : ∀ r ∈ rules, RuleOK r) 
                     · split at h
                       · cases h
                       · split at h
-                        · exact fin (s2.line + 1) _ { s2 with tight := !hasEmpty, line := s2.line + 1 } rfl hlen2 hend2 (by omega) h
-                        · exact fin s2.line _ { s2 with tight := !hasEmpty } rfl hlen2 hend2 (Nat.le_refl _) h
-                    · exact fin s2.line _ { s2 with tight := !hasEmpty } rfl hlen2 hend2 (Nat.le_refl _) h
+                        · exact fin (s2.line + 1) _ { s2 with tight := !hasEmpty, line := s2.line + 1 } rfl hlen2 hend2 ⟨rfl, rfl, rfl, rfl⟩ (by omega) h
+                        · exact fin s2.line _ { s2 with tight := !hasEmpty } rfl hlen2 hend2 ⟨rfl, rfl, rfl, rfl⟩ (Nat.le_refl _) h
+                    · exact fin s2.line _ { s2 with tight := !hasEmpty } rfl hlen2 hend2 ⟨rfl, rfl, rfl, rfl⟩ (Nat.le_refl _) h
     · simp only [Except.ok.injEq] at h; subst h; exact ⟨[], by simp, .nil _ _⟩
 
 /-- **C03.container_map** — a container rule (block quote, list item) runs a nested loop over
